@@ -231,6 +231,7 @@ HELPER_SRC = 'THE PUBLISHED HELPER IS THE SOURCE: HelperGenSpec.oes_shape / osb_
 mk('C05', ['Inst','GW2','RevCost','BinomDP','RevConv','RevBridge4','RevolveRun','RevolveGW','Opt0Table','GenLang3','GenMulti','SeqGenSpec','HelperGenSpec','HelperTC'], [C05_total,
    lifted('C05_helper_is_source','HelperGenSpec','oes_shape_is_Em',HELPER_SRC),
    lifted('C05_helper_value','HelperTC','osb_is_TC','optimal_steps_binomial(n, s), as translated from the source, returns on its whole domain (n >= 1; s >= 1, or s >= 0 when n = 1; fuel = the recursion depth n) exactly TC n s: the number of forward steps C05_multistage_forward_total and C05_revolve_forward_total establish for the streams (for either trajectory tr), = n + the Griewank-Walther closed form by C05_chain'),
+   lifted('C05_helper_model_value','HelperTC','model_osb_is_TC','... and so does the model of the helper that the extracted driver evaluates and the correspondence compares with multistage.optimal_steps_binomial on generated (n, s) (Binomial.optimal_steps_binomial: cache_step with the dictionary explicit, started empty, fuel n + 2): = TC n s on the whole domain'),
    lifted('C05_helper_rejects','HelperGenSpec','oes_rejects','... and outside that domain (n <= 0, or s < min(1, n - 1)) both helpers raise ValueError before any recursion'), lifted('C05_revolve_sequence_is_source', 'SeqGenSpec', 'revolve_top_is_source', SEQ_SRC),
    lifted('C05_multistage_source_is_model','GenMulti','multi_from_start',MULTI_SRC),
    lifted('C05_chain','Inst','C05_chain','TC (the forward work of the recursion n_advance defines) = n + E n k, and E n k = the Griewank-Walther closed form; E = the model of optimal_extra_steps'),
@@ -254,7 +255,8 @@ Print Assumptions C06_cost_is_planner_cost.
 
 """
 MIXHELPER_SRC = 'THE PUBLISHED HELPER optimal_steps_mixed IS THE SOURCE: MixHelperSpec.osm_shape is the Gallina function harness/translate.py (HelperTr) renders from optimal_steps_mixed of mixed.py (behind cache_step; `m = 1 + f(n-1, s-1); for i in range(2, n): m = min(m, i + f(i, s) + f(n-i, s-1))` as py_for over a running minimum); Gen/MixHelperGen.v re-translates the current source on every run and proves the result equal to that term by conversion.  Whenever the memoised planner mixed_step_memoization(n, s) (Mixed.memo, itself re-translated: Gen/MemoGen.v) returns a plan, the helper returns that plan\'s cost, for every fuel and argument'
-mk('C06', ['MixInv','MixDP','GenLang5','GenMixed','MixHelperSpec'], [C06_total,
+mk('C06', ['MixInv','MixDP','GenLang5','GenMixed','MixHelperSpec','MixHelperCoh'], [C06_total,
+   lifted('C06_helper_model_value','MixHelperCoh','optimal_steps_mixed_value','the model of optimal_steps_mixed that the extracted driver evaluates and the correspondence compares with the implementation (Binomial.optimal_steps_mixed: cache_step with the dictionary explicit, started empty) returns MixDP.C n s on the whole domain'),
    lifted('C06_helper_is_source','MixHelperSpec','osm_of_memo',MIXHELPER_SRC),
    lifted('C06_helper_is_planner_cost','MixHelperSpec','osm_value','optimal_steps_mixed(n, s), as translated from the source, returns on its whole domain MixDP.C n s -- by C06_cost_is_planner_cost and C06_mixed_forward_total the number of forward steps of the Mixed stream'),
    lifted('C06_helper_rejects','MixHelperSpec','osm_rejects','... and outside that domain it raises ValueError before any recursion'),
@@ -362,6 +364,8 @@ mk('C15', ['MemoCoh','SchedProofs','GenLang','GenBasic','GenLang2','GenTwo','Gen
    lifted('C15_history_independent','MemoCoh','C15_history_independent','a successful call returns the pure value whatever the call history'),
    lifted('C15_helper_cache_coherent','HelperCoh','helper_cache_coherent','THE SECOND PROCESS-GLOBAL CACHE (cache_step around optimal_extra_steps, Model/Binomial.v EmS with the dictionary explicit -- the form the extracted driver runs and the correspondence compares with the implementation): every dictionary reachable by any sequence of calls holds only valid keys with the value EC n s of the pure dynamic program'),
    lifted('C15_helper_history_independent','HelperCoh','helper_history_independent','... so a successful call returns, whatever the call history, the value of the pure recursion Binomial.Em (= BinomDP.Em by HelperCoh.Em_cv, which Gen/HelperGen.v proves to be the translated source of optimal_extra_steps)'),
+   lifted('C15_helper_total','HelperCoh','EmS_total','with enough fuel a call succeeds from any coherent dictionary'),
+   lifted('C15_mixhelper_total','MixHelperCoh','OsmS_total','likewise for optimal_steps_mixed'),
    lifted('C15_helper_source_is_pure','HelperGenSpec','oes_shape_is_Em',HELPER_SRC),
    lifted('C15_mixhelper_cache_coherent','MixHelperCoh','mixhelper_cache_coherent','THE THIRD PROCESS-GLOBAL CACHE (cache_step around optimal_steps_mixed, Model/Binomial.v OsmS): every reachable dictionary holds only valid keys with the cost MixDP.C n s of the canonical plan'),
    lifted('C15_mixhelper_history_independent','MixHelperCoh','mixhelper_history_independent','... so a successful call returns, whatever the call history, the value of the pure recursion MixHelperSpec.osm_shape, which Gen/MixHelperGen.v proves to be the translated source of optimal_steps_mixed')])
